@@ -1379,6 +1379,17 @@ M('C02', 'svd(full_matrices): identity blocks without dtype (round-5 seed b)', N
   "                U_data.append(np.eye(a.legs[0].get_block_sizes()[qi], dtype=a.dtype))", "                U_data.append(np.eye(a.legs[0].get_block_sizes()[qi]))",
   'DTYPE-block-ctor')
 
+M('C03', 'get_theta(n=1) loses copy=True when switching to keywords (round-5 seed b)', 'tenpy/networks/mps.py',
+  "            return self.get_B(i, (formL, formR), True, cutoff, '0')", "            return self.get_B(i, form=(formL, formR), cutoff=cutoff, label_p='0')",
+  'OWN-getter-copy')
+M('C03', 'get_theta(n=1) passes copy=True by keyword (twin)', 'tenpy/networks/mps.py',
+  "            return self.get_B(i, (formL, formR), True, cutoff, '0')", "            return self.get_B(i, form=(formL, formR), copy=True, cutoff=cutoff, label_p='0')",
+  None, expect='silent')
+
+M('C03', 'from_product_mps_covering copies the operand only when it permutes (round-5 seed a)', 'tenpy/networks/mps.py',
+  "            local_psi = local_psi.copy()\n            argsort = np.argsort(ind_map)\n            if not np.all(argsort == np.arange(len(argsort))):\n", "            argsort = np.argsort(ind_map)\n            if not np.all(argsort == np.arange(len(argsort))):\n                local_psi = local_psi.copy()\n",
+  'OWN-param-mps-inplace')
+
 # ---------------------------------------------------------------- C16 / C19
 M('C16', 'GMRES restart: relative residual norm used for normalisation (round-3 seed b)', KRY,
   """        self.total_error.append([npc.norm(self.rs[-1]) / self.b_norm])
